@@ -187,6 +187,11 @@ func (this *contractExecutor) Execute(transaction *types.Transaction, header *ty
 	if common.IsProposal015() {
 		gasUsed := gasLimit - leftOverGas
 		gasFeeUsed := new(big.Int).Mul(new(big.Int).SetUint64(gasUsed), defaultGasPrice)
+		// the frame may have moved the source's funds away: charge what is left and credit
+		// exactly what was debited (as deductGasFee does for a failed tx)
+		if balance := accountdb.GetBalance(common.HexToAddress(transaction.Source)); balance.Cmp(gasFeeUsed) < 0 {
+			gasFeeUsed = balance
+		}
 		accountdb.SubBalance(common.HexToAddress(transaction.Source), gasFeeUsed)
 		accountdb.AddBalance(common.FeeAccount, gasFeeUsed)
 		context["gasUsed"] = gasUsed
